@@ -1160,13 +1160,24 @@ where
                 _ => None,
             };
 
+            // Match native `p3_fri::verifier::open_input`: a batch whose tallest matrix is
+            // shorter than the global max height is opened at `index >> bits_reduced`, i.e. at
+            // the high bits of the (little-endian) query index.
+            let log_batch_max_height = mats
+                .iter()
+                .map(|(domain, _)| domain.log_size() + log_blowup)
+                .max()
+                .unwrap_or(log_global_max_height);
+            let bits_reduced = log_global_max_height.saturating_sub(log_batch_max_height);
+            let batch_index_bits = &index_bits[bits_reduced.min(index_bits.len())..];
+
             let op_ids = if perm_config.is_arity4_shape() {
                 verify_batch_circuit_arity4::<F, EF>(
                     builder,
                     perm_config,
                     &commitment_cap,
                     &dimensions,
-                    index_bits,
+                    batch_index_bits,
                     batch_openings,
                 )
             } else {
@@ -1175,7 +1186,7 @@ where
                     perm_config,
                     &commitment_cap,
                     &dimensions,
-                    index_bits,
+                    batch_index_bits,
                     batch_openings,
                     salts_for_batch,
                 )
